@@ -283,3 +283,60 @@ def trace_local(fn, local, defs=None, depth=12):
             steps.append((r, pl))
             return steps
     return steps
+
+
+def str_const(op):
+    """the text of a `&str` literal operand, else None"""
+    if op and op.get('k') == 'o' and op.get('t') in ('&str', "&'static str"):
+        v = op.get('v', '')
+        if len(v) >= 2 and v[0] == '"' and v[-1] == '"':
+            try:
+                import ast as _ast
+                return _ast.literal_eval(v) if '\\u{' not in v else v[1:-1]
+            except Exception:
+                return v[1:-1]
+    return None
+
+
+def all_operands(fn):
+    """yield every operand appearing in fn (statements, call args, switch discriminants)"""
+    for b in fn.blocks:
+        for s in b['s']:
+            if 'd' not in s:
+                continue
+            v = s['v']
+            for k in ('a', 'b'):
+                if isinstance(v.get(k), dict):
+                    yield v[k]
+            for o in v.get('ops', ()):
+                yield o
+        t = b['t']
+        if t['k'] in ('call', 'tailcall'):
+            for a in t['args']:
+                yield a
+        elif t['k'] == 'switch':
+            yield t['on']
+
+
+def string_literals(prog, fn, with_children=True):
+    """set of &str literal texts used in fn (including its promoted constants and closures)"""
+    out = set()
+    fs = [fn] + (prog.children(fn) if with_children else [])
+    for f in fs:
+        for o in all_operands(f):
+            s = str_const(o)
+            if s is not None:
+                out.add(s)
+    return out
+
+
+def adt_literals(prog, fn, adt_suffix, with_children=True):
+    """set of variant names of aggregates of an ADT (path ending with adt_suffix) built in fn/its promoteds"""
+    out = set()
+    fs = [fn] + (prog.children(fn) if with_children else [])
+    for f in fs:
+        for b in f.blocks:
+            for s in b['s']:
+                if 'd' in s and s['v']['r'] == 'agg' and s['v'].get('kind') == 'adt' and s['v']['adt'].endswith(adt_suffix):
+                    out.add(s['v']['variant'])
+    return out
